@@ -9,7 +9,7 @@ use crate::wire;
 use crate::world::{Actor, Cond, Opts, Outcome, Scenario, Step};
 use std::sync::Arc;
 
-pub const EVENTS: &[&str] = &["none", "refuse", "crash", "up", "hcfail", "hchang", "hcslow", "break", "hang", "ban", "unban", "adv-ban", "adv-admin-ban", "stop", "blackhole"];
+pub const EVENTS: &[&str] = &["none", "refuse", "crash", "up", "hcfail", "hchang", "hcslow", "break", "hang", "ban", "unban", "adv-ban", "adv-admin-ban", "stop", "blackhole", "adv-1s"];
 pub const ROLES: &[&str] = &["any", "replica", "primary"];
 
 fn addr_of(i: usize) -> String {
@@ -95,6 +95,8 @@ fn event_steps(ev: &str, target: usize) -> Vec<Step> {
         "hang" => vec![set_fault(addr, Fault { on: Matcher::ClientOriginated, kind: FaultKind::Hang, once: true })],
         "ban" => vec![Step::Admin(format!("BAN {} 30", host))],
         "unban" => vec![Step::Admin(format!("UNBAN {}", host))],
+        // a short while: no ban (automatic 60 s, admin 30 s) may have expired, no health check is due
+        "adv-1s" => vec![Step::Advance(1_000)],
         "adv-ban" => vec![Step::Advance(61_000)],
         "adv-admin-ban" => vec![Step::Advance(31_000)],
         _ => panic!("event"),
@@ -444,7 +446,7 @@ pub fn build(tier: &str) -> SimCheck {
         oracle: Box::new(oracle),
         bound: 1,
         limits: Limits { max_wall_s: if thorough { 2400.0 } else { 55.0 }, ..Default::default() },
-        rule: "scenario = shard shape (replicas 1..3 with/without primary, primary only) x load-balancing mode x history of depth 1-2 (thorough 3) over 15 events on a replica (down, crashed, stopped = accepts but never answers the startup until it runs again, black-holed = connect swallowed until the kernel's 127 s timeout, recover, health check failing / hanging / answering late after an idle gap, breaking or hanging mid-statement, admin BAN / UNBAN, ban expiry, admin-ban expiry), each followed by a transaction with role any/replica/primary between two pooler-state probes, then recovery and final transactions; every candidate order (enumerated shuffle) with 1 deviation".into(),
+        rule: "scenario = shard shape (replicas 1..3 with/without primary, primary only) x load-balancing mode x history of depth 1-2 (thorough 3) over 16 events on a replica (down, crashed, stopped = accepts but never answers the startup until it runs again, black-holed = connect swallowed until the kernel's 127 s timeout, recover, health check failing / hanging / answering late after an idle gap, breaking or hanging mid-statement, admin BAN / UNBAN, one second passing, ban expiry, admin-ban expiry), each followed by a transaction with role any/replica/primary between two pooler-state probes, then recovery and final transactions; every candidate order (enumerated shuffle) with 1 deviation".into(),
         assumptions: vec![
             "ban membership is read from the pooler (get_bans) and cross-checked against observed failures; expiry is computed from the virtual wall clock".into(),
             "a candidate with any pending injected fault counts as unhealthy when deciding whether service was owed".into(),
